@@ -115,6 +115,7 @@ def near_half_integer(exact, rel=REL):
 
 def round_candidates(exact):
     """Acceptable results of round-to-nearest of an exact rational."""
+    exact = F(exact)
     fl = exact.numerator // exact.denominator
     frac = exact - fl
     if near_half_integer(exact):
